@@ -506,9 +506,12 @@ def execute(w, ev):
         while tb.tb_next is not None:
             tb = tb.tb_next
         fn = tb.tb_frame.f_code.co_filename
-        if fn.startswith(_HERE) and not isinstance(x, Veto):
+        if fn.startswith(_HERE) and not isinstance(x, Veto) and not getattr(x, "injected", False):
             raise HarnessError("exception inside the harness: %r" % (x,)) from x
-        return "refused:" + type(x).__name__, []
+        name = type(x).__name__
+        if getattr(x, "injected", False):
+            name = type(x).__mro__[1].__name__
+        return "refused:" + name, []
     outs = outs or []
     for k, o in enumerate(outs):
         w.bind("e%d.%d" % (i, k), o)
@@ -526,3 +529,65 @@ def _(w, e):
 def _(w, e):
     from spydrnet.flatten import flatten
     flatten(need(w, e["on"]))
+
+
+# -- disk, clock, process ---------------------------------------------------------------------
+@op("compose")
+def _(w, e):
+    n = need(w, e["on"])
+    opts = dict(e.get("opts") or {})
+    if "definition_list" in opts:
+        opts["definition_list"] = list(opts["definition_list"])
+    sdn.compose(n, e["path"], **opts)
+
+
+@op("parse")
+def _(w, e):
+    n = sdn.parse(e["path"])
+    return owned_walk(n)
+
+
+@op("fs_put")
+def _(w, e):
+    from .simfs import norm
+    w.fs.files[norm(e["path"])] = e["text"]
+    w.fs.written_log[norm(e["path"])] = [e["text"]]
+
+
+@op("restart")
+def _(w, e):
+    w.restart()
+
+
+@op("clock_jump")
+def _(w, e):
+    w.clock.offset_s += e["d"]
+    w.count("fault.clock_jump")
+
+
+@op("fs_put_example")
+def _(w, e):
+    from . import corpus
+    from .simfs import norm
+    text = corpus.load()[e["name"]]
+    w.fs.files[norm(e["path"])] = text
+    w.fs.written_log[norm(e["path"])] = [text]
+
+
+@op("fs_config")
+def _(w, e):
+    if "chunk_law" in e:
+        w.fs.configure(e["chunk_law"], e.get("seed", 0))
+    if "write_error_at" in e:
+        w.fs.write_error_at = w.fs.total_writes + e["write_error_at"] if e["write_error_at"] else None
+
+
+@op("query")
+def _(w, e):
+    """A read-only query between two composes (must not disturb anything)."""
+    n = need(w, e["on"])
+    fn = getattr(sdn, e["fn"])
+    kw = {}
+    if e.get("recursive"):
+        kw["recursive"] = True
+    list(fn(n, **kw))
